@@ -86,6 +86,34 @@ fn check_relation(ctx: &mut Ctx, m: &MRel) -> bool {
         }
     };
     let mut ok = true;
+    // the same value assembled with the builder (valid components: the builder parses the version text)
+    let built = guard(512, || {
+        let mut b = lossy::Relation::build(&m.name);
+        if let Some(q) = &m.archqual {
+            b = b.archqual(q);
+        }
+        if let Some(a) = &x.architectures {
+            b = b.architectures(a.iter().map(|s| s.as_str()).collect());
+        }
+        if let Some((o, v)) = &m.version {
+            b = b.version(VersionConstraint::from_str(o).unwrap(), v);
+        }
+        for g in &x.profiles {
+            b = b.profile(g.clone());
+        }
+        b.build()
+    });
+    match built {
+        Ok(b) if b == x && b.to_string() == text => ctx.count("builder-agrees"),
+        Ok(b) => {
+            ctx.violation(&format!("builder-differs|lossy::RelationBuilder|{}", sh), json!({"value": format!("{:?}", x), "built": format!("{:?}", b), "built_prints": b.to_string()}));
+            ok = false;
+        }
+        Err(f) => {
+            ctx.violation(&format!("{}|lossy::RelationBuilder|{}", f.class(), sh), json!({"value": format!("{:?}", x), "failure": f.json()}));
+            ok = false;
+        }
+    }
     match re {
         Ok(r) if r == x => {}
         other => {
@@ -159,6 +187,37 @@ fn relations_lane(ctx: &mut Ctx, _idx: u64) {
                 if back != orig {
                     ctx.violation("conversion-roundtrip-unequal|Vec<lossy::Relation>::from(Entry)|entry", json!({"value": format!("{:?}", orig), "back": format!("{:?}", back)}));
                 }
+            }
+            // the field value is a list of lists: its own accessors and constructors agree with the vector inside
+            let api = guard(2048, || {
+                let from_entries: lossy::Relations = x.0.iter().cloned().collect();
+                let singles: Vec<lossy::Relation> = x.0.iter().map(|e| e[0].clone()).collect();
+                let from_singles: lossy::Relations = singles.iter().cloned().collect();
+                let iter_ok = x.iter().map(|e| e.into_iter().cloned().collect::<Vec<_>>()).collect::<Vec<_>>() == x.0;
+                let index_ok = (0..x.0.len()).all(|i| x[i] == x.0[i]);
+                let mut y = x.clone();
+                let k = x.0.len() / 2;
+                y.remove(k);
+                let mut want = x.0.clone();
+                want.remove(k);
+                let mut z = x.clone();
+                z[0] = vec![];
+                from_entries == x
+                    && from_singles.0 == singles.iter().map(|r| vec![r.clone()]).collect::<Vec<_>>()
+                    && iter_ok
+                    && index_ok
+                    && x.len() == x.0.len()
+                    && x.is_empty() == x.0.is_empty()
+                    && lossy::Relations::new().is_empty()
+                    && lossy::Relations::default() == lossy::Relations::new()
+                    && y.0 == want
+                    && z.0[0].is_empty()
+                    && z.0[1..] == x.0[1..]
+            });
+            match api {
+                Ok(true) => ctx.count("list-api-agrees"),
+                Ok(false) => ctx.violation("list-api-differs|lossy::Relations|field", json!({"value": text})),
+                Err(f) => ctx.violation(&format!("{}|lossy::Relations list api|field", f.class()), json!({"value": text, "failure": f.json()})),
             }
             ctx.nontrivial(text.as_bytes());
             ctx.sample(|| json!({"value": text}));
